@@ -117,6 +117,20 @@ FoldOrV(s) == IF s = <<>> THEN Bool(FALSE) ELSE OrV(s[1], FoldOrV(Tail(s)))
 SelectTrue(xs, ps) == IF xs = <<>> THEN <<>> ELSE (IF ps[1].v THEN <<xs[1]>> ELSE <<>>) \o SelectTrue(Tail(xs), Tail(ps))
 DupKeys(es) == \E i, j \in 1..Len(es) : i < j /\ es[i][1].t = es[j][1].t /\ Eq(es[i][1], es[j][1])
 
+AnyErrSeq(s) == \E j \in 1..Len(s) : s[j].t \in {"err", "indef"}
+\* ---- host functions (C14): the functions an application supplies when it builds a program, as the model specifies them
+\*      hecho(args...) = the list of its arguments;  hzero() = 7;  herr / hval / htyp: return a CELEvalError / raise ValueError /
+\*      raise TypeError (all three: an evaluation error of that sub-expression);  "size" is replaced by the constant -1 when the
+\*      environment carries the pseudo-binding __override_size;  any other unknown name is unbound: an evaluation error.
+HostNames == {"hecho", "hzero", "herr", "hval", "htyp"}
+HostApply(f, args) ==
+  IF AnyErrSeq(args) THEN Indef            \* an argument that is itself an error: the statement does not say
+  ELSE CASE f = "hecho" -> List(args)
+         [] f = "hzero" -> (IF args = <<>> THEN IntV(FromInt(7)) ELSE Indef)
+         [] OTHER -> Err
+SizeOverridden(env) == Lookup(env, "__override_size") = Bool(TRUE)
+Unbound(f) == f \in {"hnone", "unknown_fn"}
+
 RECURSIVE Eval(_,_)
 EvalSeq(xs, env) == [j \in 1..Len(xs) |-> Eval(xs[j], env)]
 Eval(e, env) ==
@@ -143,11 +157,17 @@ Eval(e, env) ==
     [] e.k = "idx" -> Index(Eval(e.x, env), Eval(e.i, env))
     [] e.k = "sel" -> Select(Eval(e.x, env), e.f)
     [] e.k = "has" -> HasField(Eval(e.x, env), e.f)
-    [] e.k = "call" -> (CASE e.f = "size" /\ Len(e.args) = 1 -> SizeOf(Eval(e.args[1], env))
+    [] e.k = "call" -> (CASE e.f \in HostNames -> HostApply(e.f, EvalSeq(e.args, env))
+                          [] Unbound(e.f) -> Err
+                          [] e.f = "size" /\ SizeOverridden(env) -> (IF AnyErrSeq(EvalSeq(e.args, env)) THEN Indef ELSE IntV(FromInt(-1)))
+                          [] e.f = "size" /\ Len(e.args) = 1 -> SizeOf(Eval(e.args[1], env))
                           [] e.f = "type" /\ Len(e.args) = 1 -> (LET v == Eval(e.args[1], env) IN IF IsErr(v) THEN Err ELSE IF IsIndef(v) THEN Indef ELSE Type(TypeName(v)))
                           [] OTHER -> Indef)
     [] e.k = "mcall" -> (LET x == Eval(e.x, env) IN
-                         CASE e.f = "size" /\ Len(e.args) = 0 -> SizeOf(x)
+                         CASE e.f \in HostNames -> HostApply(e.f, <<x>> \o EvalSeq(e.args, env))
+                           [] Unbound(e.f) -> Err
+                           [] e.f = "size" /\ SizeOverridden(env) -> (IF AnyErrSeq(<<x>> \o EvalSeq(e.args, env)) THEN Indef ELSE IntV(FromInt(-1)))
+                           [] e.f = "size" /\ Len(e.args) = 0 -> SizeOf(x)
                            [] e.f \in {"contains", "startsWith", "endsWith"} /\ Len(e.args) = 1 -> StrFn(e.f, x, Eval(e.args[1], env))
                            [] OTHER -> Indef)
     [] e.k = "macro" ->
@@ -163,4 +183,23 @@ Eval(e, env) ==
                                          ELSE List(SelectTrue(xs, rs)))
                    [] e.m = "exists_one" -> (IF AnyErr(rs) THEN Err ELSE IF AnyIndef(rs) \/ (\E j \in 1..Len(rs) : ~IsBoolV(rs[j])) THEN Indef
                                              ELSE Bool(Cardinality({j \in 1..Len(rs) : rs[j].v}) = 1)))
+\* ---- the calls the host functions receive: <<name, argument values>> in evaluation order, once per call site reached.
+\*      Both operands of && and || count as reached (CEL evaluates them commutatively); only the selected branch of ?: is.
+RECURSIVE Calls(_,_), CallsSeq(_,_), BodyCalls(_,_,_)
+CallsSeq(xs, env) == IF xs = <<>> THEN <<>> ELSE Calls(xs[1], env) \o CallsSeq(Tail(xs), env)
+BodyCalls(e, env, xs) == IF xs = <<>> THEN <<>> ELSE Calls(e.body, <<<<e.v, xs[1]>>>> \o env) \o BodyCalls(e, env, Tail(xs))
+IsHostCall(f, env) == f \in HostNames \/ (f = "size" /\ SizeOverridden(env))
+Calls(e, env) ==
+  CASE e.k \in {"lit", "var"} -> <<>>
+    [] e.k = "list" -> CallsSeq(e.xs, env)
+    [] e.k = "map" -> CallsSeq([j \in 1..(2 * Len(e.es)) |-> e.es[(j + 1) \div 2][IF j % 2 = 1 THEN 1 ELSE 2]], env)
+    [] e.k = "un" -> Calls(e.x, env)
+    [] e.k = "bin" -> Calls(e.l, env) \o Calls(e.r, env)
+    [] e.k = "cond" -> Calls(e.c, env) \o (LET c == Eval(e.c, env) IN IF IsTrue(c) THEN Calls(e.a, env) ELSE IF IsFalse(c) THEN Calls(e.b, env) ELSE <<>>)
+    [] e.k = "idx" -> Calls(e.x, env) \o Calls(e.i, env)
+    [] e.k \in {"sel", "has"} -> Calls(e.x, env)
+    [] e.k = "call" -> CallsSeq(e.args, env) \o (IF IsHostCall(e.f, env) THEN << <<e.f, EvalSeq(e.args, env)>> >> ELSE <<>>)
+    [] e.k = "mcall" -> Calls(e.x, env) \o CallsSeq(e.args, env)
+                        \o (IF IsHostCall(e.f, env) THEN << <<e.f, <<Eval(e.x, env)>> \o EvalSeq(e.args, env)>> >> ELSE <<>>)
+    [] e.k = "macro" -> Calls(e.x, env) \o (LET c == Eval(e.x, env) IN IF c.t # "list" THEN <<>> ELSE BodyCalls(e, env, c.v))
 =============================================================================
